@@ -10,19 +10,27 @@ datasets) under *adversarial but valid* histories:
   design and shrink geometrically (floor 2^-14) so that runs terminate.
 * PaVeBa / Auer: the real `EmpiricalMeanVarModel`; the problem proxy `TargetProblem` returns the
   observations that put each design's running mean at truth + frac·width·direction.  A second
-  sub-stream uses the real problem with lattice noise (premise not forced).
+  sub-stream uses the real problem with lattice noise (premise not forced); a third one (Auer with
+  `use_empirical_beta=True`, contraction 1–2) scripts explicit observation errors (`mode = "offsets"`)
+  with a large swing in one objective / for one design, so that width rows become non-uniform.
 
 After every `run_one_step()` the displayed region of every design that was refreshed in that round
 is exported exactly (`as_integer_ratio`) and the Lean driver decides `μ_i ∈ R_t(i)` exactly
 (`Accuracy.inBox` / `Accuracy.inEll`).  If the truth left a region the implication has no premise:
 the run is counted (`premise_failed`) and not judged.  At termination (S = ∅) the driver evaluates
 the two conclusions exactly on the true means: (a) `Accuracy.accA`, (b) `Accuracy.accB` with the
-algorithm's own α and ε (R).
+algorithm's own α and ε (R).  For Auer the driver also evaluates, per round, the (stronger) premise
+of the Lean theorem `auer_final_accurate` (`errw`: ‖c − μ‖_∞ ≤ min_d β_d); a failed conclusion under
+that premise gets its own key.  Keys of the genuine defects found: `rect-slack-objective-space-units`
+(D6), `auer-scalar-M-vs-smallest-width`, `auer-widths-by-position` (D2, fixed in /repo; regression).
+Hand-built minimal histories for the three live in `corpus/C01/`.
 
 Bonus (F) stream ("decided rounds"): when every displayed region is so small that every
 `is_dominated` / `is_covered` answer among the living designs is determined by the true means with
-a margin, the round transition itself is determined; the driver replays `Steps.pavebaRound` with
-those answers (`pround`) and the resulting (S, P, U) must equal the implementation's.  For Auer with
+a margin (up to 8 undetermined answers are enumerated: the round counts as determined if every completion
+gives the same result), the round transition itself is determined; the driver replays
+`Steps.pavebaRound` with those answers (`pround`) and the resulting (S, P, U) must equal the
+implementation's.  For Auer with
 uniform widths the exact rule `Steps.auerRound` is replayed on the exported centres / widths with a
 ±1e-9 band (`around`).
 """
